@@ -473,7 +473,7 @@ package bigbuff
 //@   props C01 C02 C03 C04
 //@   action mutex
 //@   holds W : c.mutex
-//@   requires forward : offset >= 0
+//@   requires forward : offset >= 0 && b != nil && b.cond != nil
 //@   ensures known : old(has(b.consumers, c)) ==> ret == nil && has(b.consumers, c) && b.consumers[c] == old(b.consumers[c]) + offset
 //@   ensures unknown : !old(has(b.consumers, c)) ==> ret != nil && !has(b.consumers, c)
 //@   ensures others : forall(k, ref, *consumer, k != c ==> has(b.consumers, k) == old(has(b.consumers, k)) && b.consumers[k] == old(b.consumers[k]))
@@ -483,6 +483,7 @@ package bigbuff
 //@   props C01 C04 C12
 //@   action mutex
 //@   holds W : c.mutex
+//@   requires inited : b != nil && b.cond != nil
 //@   ensures gone : !has(b.consumers, c)
 //@   ensures others : forall(k, ref, *consumer, k != c ==> has(b.consumers, k) == old(has(b.consumers, k)) && b.consumers[k] == old(b.consumers[k]))
 //@   ensures frame : unchanged(b.buffer, b.offset)
@@ -553,7 +554,7 @@ package bigbuff
 //@ func (*Buffer).cleanupLogic
 //@   props C01 C03 C04
 //@   holds W : b.mutex
-//@   requires inv : b != nil && inv(b.mutex)
+//@   requires inv : b != nil && inv(b.mutex) && b.cond != nil
 //@   loop 0 invariant nil : 0 <= x && x <= shift && shift <= len(b.buffer) && len(b.buffer) == old(len(b.buffer)) && b.offset == old(b.offset) && all(j, shift, len(b.buffer), b.buffer[j] == old(b.buffer[j])) && heldW(b.mutex)
 //@   ensures shifted : b.offset >= old(b.offset) && end(b) == old(end(b)) && b.offset <= old(end(b))
 //@   ensures window : all(i, 0, len(b.buffer), b.buffer[i] == log(b, b.offset + i))
